@@ -224,6 +224,12 @@ def parking_ops(threads, victim, p1, k1, p2=0, k2=0, runner=None):
     for _ in range(k2): s += ''.join('>' + o for o in others)
     return s
 
+def parking_fine(victim, other, p1, w1, p2):
+    """two threads, fine double parking: victim p1 steps, other w1 steps (partial operation), victim p2 steps, other completes its
+    operation (or blocks), then the default completion; every step is followed by a flush of the stepping thread's oldest store"""
+    vf = victim + chr(ord('a') + int(victim)); of = other + chr(ord('a') + int(other))
+    return vf * p1 + of * w1 + vf * p2 + '>' + other + '>' + other
+
 # ---------------------------------------------------------------- reporting
 def known_findings(pid):
     out = []
